@@ -86,6 +86,8 @@ type StdOptions struct {
 	IssuerPath     string // e.g. "/oidc": the issuer carries a path and the provider is mounted below it
 	Options        []op.Option
 	Endpoints      *op.Endpoints
+	// EndpointsFor, if set, supplies the endpoints once the router is known (it may depend on the seeded choice)
+	EndpointsFor func(router string) *op.Endpoints
 	// Tenants > 1: the provider derives its issuer from each request (IssuerMode "host" or "forwarded", seeded if
 	// empty) and is reachable under that many host names
 	Tenants int
@@ -197,6 +199,9 @@ func NewStd(o *kernel.Outcome, tape *kernel.Tape, opt StdOptions) (*World, error
 	w.IssuerMode = opt.IssuerMode
 	if opt.Tenants > 1 && w.IssuerMode == "" {
 		w.IssuerMode = tape.Sub("cfg-tenants").Pick("host", "forwarded")
+	}
+	if opt.EndpointsFor != nil {
+		opt.Endpoints = opt.EndpointsFor(w.Router)
 	}
 	node, err := BuildOP(w.Store, OPConfig{Router: w.Router, Issuer: w.Issuer, IssuerPath: opt.IssuerPath, IssuerMode: w.IssuerMode, Config: w.Conf, Caps: w.Caps, Options: opts, Endpoints: opt.Endpoints})
 	if err != nil {
@@ -315,6 +320,13 @@ func (w *World) makeClients() {
 	w.ClientKeys["jwt"] = k
 	pub := k.Public()
 	j.Key = &pub
+	// a second client that authenticates by assertion, with a key of its own
+	j2 := mk("jwt2", op.ApplicationTypeWeb, oidc.AuthMethodPrivateKeyJWT, []string{"https://jwt2.sim/callback"})
+	k2 := FixtureKey("rsa", 3)
+	k2.KeyID = "jwt2-key-1"
+	w.ClientKeys["jwt2"] = k2
+	pub2 := k2.Public()
+	j2.Key = &pub2
 }
 
 // SortedClients returns client ids in a fixed order.
